@@ -10,42 +10,42 @@ V = os.path.dirname(os.path.dirname(os.path.abspath(__file__)))
 META = {
     "C01": dict(cat="model_checking", eng="E1-sched", ref="3 (scheduler group), 1.1",
                 tech="stateless deviation-bounded exploration of the real scheduler + per-doer trace automaton",
-                text="Every execution of the closed system (real Doist/DoDoer/Doer code + scripted doers) with up to 2 (quick) / 3 (thorough) deviations from default answers over all small doer forests is run; a trace automaton checks enter recur* (clean|cease|abort) exit per doer. Bounded-exhaustive: a counterexample within the bound cannot be missed.",
-                note="Trusted: CPython generator semantics, the harness leaf templates, the trace monitor. Bounds: forests <= 4 leaves, depth <= 2/3, horizon 3 recurs."),
+                text="Every execution of the closed system (real Doist/DoDoer/Doer code + scripted doers) with up to 2 deviations from default answers over all small doer forests is run (thorough: forests of depth <= 3, and 3 deviations on forests of <= 2 leaves); the alphabet includes raise / KeyboardInterrupt / failing and completing enter / extend / remove of self, adjacent and far siblings and extend/remove reaching into a sibling DoDoer; a trace automaton checks enter recur* (clean|cease|abort) exit per doer. Bounded-exhaustive: a counterexample within the bound cannot be missed.",
+                note="Trusted: CPython generator semantics, the harness leaf templates, the trace monitor. Bounds: forests <= 4 leaves, depth <= 2/3, horizon 3 recurs; bound 3 only on forests of <= 2 leaves (a 4-leaf forest has ~10^7 executions at bound 3)."),
     "C02": dict(cat="model_checking", eng="E1-sched", ref="3 (scheduler group)",
                 tech="stateless deviation-bounded exploration + exit-window order monitor",
-                text="Same closed system, alphabet focused on stops (raise, failing enter, limit, remove, extend): inside every scheduler's exit window the alive children must exit in reverse enter order, completely, before do() returns/raises.",
+                text="Same closed system, alphabet focused on stops (raise, failing enter, limit, remove of adjacent / far siblings and of the parent, extend, extend/remove reaching into a sibling DoDoer from outside its pass): inside every scheduler's exit window the alive children must exit in reverse enter order, completely, before do() returns/raises.",
                 note="Trusted: monitor; refcount-timed finalisation is observed relative to do() returning (deterministic in CPython). Ordering after extend() from a running doer is a recorded KNOWN-FINDING."),
     "C03": dict(cat="model_checking", eng="E1-sched", ref="3 (scheduler group)",
                 tech="stateless deviation-bounded exploration + statement-derived reference cycle model in lock step",
                 text="All small forests x all yield/return scripts within the deviation bound; the per-doer (cycle, tyme) sequence and within-cycle order must equal a 40-line reference model transcribed from the statement (float-exact).",
-                note="Trusted: reference model. Tocks from {0,None,T/2,T,2T,0.1}; T in {1,0.25,0.1}; start in {0,2.5}."),
+                note="Trusted: reference model. Tocks from {0,None,T/2,T,1.5T,2T,2.5T,0.1}; T in {1,0.25,0.1}; start in {0,2.5}; a sweep job enumerates a 5x4x8x2 configuration grid."),
     "C04": dict(cat="model_checking", eng="E1-sched differential", ref="3 (scheduler group)",
                 tech="stateless exploration of flat runs, each replayed under every regrouping into tock-0 DoDoers (differential)",
-                text="Every flat execution within the bound is re-run under all 2/13/69/335 regroupings of its 1..4 leaves with the recorded decisions; traces, done flags, completion cycle must be identical. No reference model needed.",
+                text="Every flat execution within the bound is re-run under all 2/13/69/335 regroupings of its 1..4 leaves with the recorded decisions; traces, done flags, completion cycle must be identical; leaves may also complete inside enter (generator functions: with True, False or no value). No reference model needed.",
                 note="Runs end by completion or limit as in the property's quantifier."),
     "C05": dict(cat="model_checking", eng="E1-sched", ref="3 (scheduler group)",
                 tech="stateless deviation-bounded exploration + statement-derived termination/done oracle",
-                text="Limits incl. non-multiples of tock, start tymes, always-DoDoers; return cycle, doist.done, final tyme and every doer.done are checked against rules computed from the statement and the observed completions.",
-                note="An idle always-DoDoer's done flag after a forced close is excluded (pinned by hio's own test_dodoer_always)."),
+                text="Limits incl. non-multiples of tock, start tymes, always-DoDoers, limit and start tyme given to the constructor or to do() over stale constructor values, a doer given to an idle always-DoDoer from outside; return cycle, doist.done, final tyme and every doer.done are checked against rules computed from the statement and the observed completions.",
+                note="An idle always-DoDoer's done flag after a forced close is excluded (pinned by hio's own test_dodoer_always), also when it was given a doer from outside after its last recur (runtime extension is C06's subject)."),
     "C06": dict(cat="model_checking", eng="E1-sched", ref="3 (scheduler group)",
                 tech="stateless deviation-bounded exploration of extend/remove histories + list model of membership",
-                text="extend/remove of self, siblings, completed, absent and duplicate doers from inside running doers at every step, owners Doist and DoDoer(always); timing clauses and scheduler.doers vs list model checked after every call.",
+                text="extend/remove of self, adjacent and far siblings, completed, absent and duplicate doers, new doers that complete inside enter, from inside running doers at every step, owners Doist and DoDoer(always); timing clauses and scheduler.doers vs list model checked after every call.",
                 note="extend from inside enter is outside the quantifier. Re-adding a self-removed still-running doer is not in the alphabet."),
     "C08": dict(cat="model_checking", eng="E3 op-sequence enumeration", ref="3 (C08)",
                 tech="exhaustive enumeration of all timer operation sequences up to a depth against a start/stop model",
-                text="All sequences (depth 5/7) of advance/rewind/start/restart on a real Tymer are compared float-exactly with a model written from the statement; all sequences (depth 6/8) of clock jumps/reads/starts on a real MonoTimer (retro True/False) are checked for monotone elapsed, sticky expired and remaining consistent with expired whatever the order in which the three are read.",
+                text="All sequences (depth 5/7) of advance/rewind/start/restart on a real Tymer are compared float-exactly with a model written from the statement, and a boundary sweep places tyme exactly on, one and two ulps around every start and stop for 64 non-dyadic starts x 123 durations x {no restart, restart(), restart(d)}; all sequences (depth 6/8) of clock jumps/reads/starts on a real MonoTimer (retro True/False) are checked for monotone elapsed, sticky expired and remaining consistent with expired whatever the order in which the three are read.",
                 note="Fake clock installed as hio.help.timing.time; dyadic values keep MonoTimer arithmetic exact."),
     "C09": dict(cat="model_checking", eng="E1 over FakeNet", ref="3 (TCP group), 2 (FakeNet)",
                 tech="stateless deviation-bounded exploration of kernel answers (partial send/short read/would-block/TLS want) on real tcp Client/Server over an in-memory kernel model",
-                text="Real tcp Client/ClientTls and Server/ServerTls exchange scripted payloads over FakeNet; every execution with up to 3 (quick) / 5 (thorough) non-default kernel answers is run; after every service round received bytes must be a prefix of transmitted bytes in both directions, wire logs must equal the bytes the kernel accepted/delivered, and healthy servicing must deliver everything.",
+                text="Real tcp Client/ClientTls (built with application-supplied empty rxbs/txbs buffers, which the harness fills and observes) and Server/ServerTls exchange scripted payloads over FakeNet; every execution with up to 3 (quick) / 5 (thorough) non-default kernel answers is run; after every service round received bytes must be a prefix of transmitted bytes in both directions, wire logs must equal the bytes the kernel accepted/delivered, and healthy servicing must deliver everything.",
                 note="Trusted: FakeNet (its deterministic behaviour is compared call by call with real loopback sockets by vf/env/fakenet_conf.py, reported in evidence); TLS is a pass-through raising OpenSSL's want-read/want-write."),
     "C10": dict(cat="fault_enumeration", eng="E1 over FakeNet", ref="3 (TCP group)",
                 tech="exhaustive single (quick) / double (thorough) fault placement: every connection-level errno, TLS EOF, handshake abort at every send/recv/handshake call, peer close/RST/half-close at every step boundary",
-                text="Server side with victim + sibling connection, client side against a scripted peer, plain and TLS: service() must not raise, the victim must end cut off / aborted / removed-and-closed, the sibling's echo must complete.",
+                text="Server side with victim + sibling connection, client side against a scripted peer (which may also die right after its answer, with the answer still unread), plain and TLS, with and without a WireLog attached: service() must not raise, the victim must end cut off / aborted / removed-and-closed, the sibling's echo must complete.",
                 note="'marked' accepts removal with the socket closed. Generic TLS protocol errors (certificate failure) are outside the property."),
     "C11": dict(cat="model_checking", eng="E2 BFS over FakeNet", ref="3 (TCP group)",
-                tech="explicit-state BFS over connect/handshake-pending/replace/reset/reopen/close event histories with socket-table invariant",
+                tech="explicit-state BFS over connect/handshake-pending/handshake-EOF/protocol-error/reset/replace/reopen/close event histories with socket-table invariant",
                 text="BFS to depth 5/7 over server and client event histories (plain and TLS); after Server.close()/reopen() every socket it created or accepted must be closed; a client never leaves an earlier socket open.",
                 note="Openness is observed on the fake sockets (explicit close() calls), never through garbage collection."),
     "C12": dict(cat="model_checking", eng="E1 full tree over FakeNet + virtual tyme", ref="3 (C12)",
@@ -61,12 +61,12 @@ META = {
                 text="Streams of 1-3 events from 16 shapes, every per-line CRLF/LF/CR assignment (single events) or near-uniform assignment, every <=2/3-cut partition and byte-wise, close-delimited and chunked; events, last id and retry must equal the reference.",
                 note="Reference parser transcribed from the WHATWG algorithm (vf/ref/sse.py); streams end with a complete event; no BOM."),
     "C16": dict(cat="fault_enumeration", eng="E3 mutation enumeration over FakeNet", ref="3 (C16)",
-                tech="exhaustive enumeration of short byte strings, alphabet strings, all single mutations of a message corpus and targeted near-valid shapes against WSGI server, bare server and client",
+                tech="exhaustive enumeration of short byte strings, alphabet strings, all single mutations of a message corpus, targeted near-valid shapes, a request-target grammar, a Content-Type grammar and two-message sequences on one connection against WSGI server, bare server and client",
                 text="service() of http.Server, BareServer and http.Client must never raise for any enumerated input; a sibling connection must still be answered.",
-                note="Key = (system, innermost hio call site, exception type)."),
+                note="Key = (system, innermost hio call site, exception type). Name resolution is owned by the harness (only numeric hosts and localhost resolve)."),
     "C17": dict(cat="exploration", eng="E3", ref="3 (C17)",
                 tech="exhaustive enumeration of bodies x chunk compositions x extensions x trailers and of all chunk-size strings up to a length",
-                text="All bodies <= 4/6 bytes over 4 byte values in every chunk composition decode exactly through both parsers; every chunk-size string <= 3/4 chars over 15 characters is accepted iff it is plain hex.",
+                text="All bodies <= 4/6 bytes over 4 byte values in every chunk composition decode exactly through both parsers; every chunk-size string <= 3/4 chars over 15 characters is accepted iff it is plain hex, and anything else must be reported as an error (a parser that silently waits for more chunk data has accepted the size).",
                 note="Whitespace-padded hex sizes are don't-care (RFC 7230 BWS)."),
     "C07": dict(cat="model_checking", eng="E1 over a fake clock", ref="3 (C07)",
                 tech="stateless deviation-bounded exploration of clock behaviour (consumed time, sleep overshoot, backward steps, stalls) around the real Doist.do() real-time loop",
@@ -74,7 +74,7 @@ META = {
                 note="Fake clock installed as module global `time` of hio.base.doing and hio.help.timing; forward jumps excluded as in the statement."),
     "C14": dict(cat="exploration", eng="E3 product enumeration", ref="3 (C14)",
                 tech="exhaustive product enumeration of request specifications through the real Requester/Client and Requestant/buildEnviron, compared with the specification via a reference urlencoded reader",
-                text="9 methods x 7 paths x query dicts over 10 hostile atoms x header sets x 9 bodies (raw incl. all byte values, JSON, form) x explicit Content-Length: method, path, query arguments, headers and body bytes must be recovered.",
+                text="9 methods x 7 paths x query dicts over 10 hostile atoms x header sets x 9 bodies (raw incl. all byte values, JSON, form) x explicit Content-Length: method, path, query arguments, headers and body bytes must be recovered; the same for the second request of a reused Requester after each of 3 earlier requests (form fields, JSON, raw body with headers and query).",
                 note="GET carries no body by design; header values are legal field values; form fields compared as body bytes only."),
     "C18": dict(cat="model_checking", eng="E1 over FakeNet + stdlib parser", ref="3 (C18)",
                 tech="stateless deviation-bounded exploration of request sequences x WSGI app behaviours x partial sends; wire bytes judged by an independent HTTP parser",
@@ -82,19 +82,19 @@ META = {
                 note="An unframed response to an HTTP/1.0 keep-alive request can only be delimited by closing (RFC 7230): expected as non-persistent."),
     "C19": dict(cat="model_checking", eng="E1 full tree over FakeNet", ref="3 (C19)",
                 tech="complete enumeration of scripted server behaviours per queued request (immediate, delayed, fragmented, redirecting, closing) against the real http.Client",
-                text="1-2/3 queued requests, plain and TLS-flavoured client, reconnectable or not; every assignment of 6-7 server behaviours and 4 redirect codes; no request bytes while an earlier response is unfinished; at most one response entry per request in order with tag and redirect history; https->http refused without contacting the plain listener; exactly one entry per request when the connection stays usable.",
+                text="1-2/3 queued requests (each queued in one of 4 ways: qargs+body, raw dict, query inside the path, no query), plain and TLS-flavoured client, reconnectable or not; every assignment of 7-8 server behaviours (incl. a redirect without Location) and 4 redirect codes; every request goes out with exactly its own method, query and body; a plainly answered request yields a plain entry whatever happened before; no request bytes while an earlier response is unfinished; at most one response entry per request in order with tag and redirect history; https->http refused without contacting the plain listener; exactly one entry per request when the connection stays usable.",
                 note="Liveness is not demanded through a connection the server closed unless the client is reconnectable on its original connector."),
     "C20": dict(cat="model_checking", eng="E3 permutation enumeration", ref="3 (memo group)",
                 tech="exhaustive enumeration of gram sizes x header encodings x codes through the real Memoer.rend, and of every delivery permutation, duplicate insertion, strict subset and two-memo interleaving into the real receive side",
-                text="5 unicode memos x 4 zeroth-gram codes x base64/base2 headers x every gram size from the legal minimum to the first single-gram size; for sizes giving <= 3 (quick) / 4 (thorough) grams: all permutations, all permutations with one duplicate at every position, all permutations of all strict subsets, all order-preserving merges with a second memo from another source and signer; the inbox must equal the multiset of complete memos with text, source and signer id.",
+                text="5 unicode memos x 4 zeroth-gram codes x base64/base2 headers x every gram size from the legal minimum to the first single-gram size; for sizes giving <= 3 (quick) / 4 (thorough) grams: all permutations, all permutations with one duplicate at every position, all permutations of all strict subsets, all order-preserving merges with a second memo from another source and signer, also of every permutation of every incomplete subset of the first memo, and duplicate-carrying sequences followed or preceded by the second memo; the inbox must equal the multiset of complete memos with text, source and signer id.",
                 note="Recorded KNOWN-FINDINGs: rend fails for the smallest legal base2 gram sizes; a duplicate of an already delivered memo is delivered again; a signed gram ahead of its zeroth gram is dropped. Counter-based memo ids, fixed ed25519 seeds."),
     "C21": dict(cat="fault_enumeration", eng="E1 full answer tree over scripted transport / fake datagram socket", ref="3 (memo group)",
-                tech="complete enumeration of the tree of transport answers (accept all / 0 / 1 / len-1 bytes, would-block, unreachable errnos) to the first 4/6 sends, real Memoer and udp PeerMemoer transmit servicing, per-destination ideal-sender oracle",
-                text="6 layouts of 2-3 grams to 1-2 destinations x {Memoer with scripted send, udp.PeerMemoer over a fake datagram socket} x {greedy service(), serviceAllOnce()}: every answer history of the first 4 (quick) / 6 (thorough) sends, then all-accepting sends to a horizon; every send must offer exactly the unsent rest of the oldest unfinished gram of its destination; at the horizon every gram was accepted in full or dropped by an unreachable answer and the buffers are empty. Plus each of the 10 unreachable errnos at each of the first 3 sends.",
+                tech="complete enumeration of the tree of transport answers (accept all / 0 / 1 / len-1 bytes, would-block, unreachable errnos) to the first 4/6 sends, real Memoer, udp and uxd PeerMemoer transmit servicing, per-destination ideal-sender oracle",
+                text="6 layouts of 2-3 grams to 1-2 destinations x {Memoer with scripted send, udp.PeerMemoer and uxd.PeerMemoer over a fake datagram socket} x {greedy service(), serviceAllOnce()}: every answer history of the first 4 (quick) / 6 (thorough) sends, then all-accepting sends to a horizon; every send must offer exactly the unsent rest of the oldest unfinished gram of its destination; at the horizon every gram was accepted in full or dropped by an unreachable answer and the buffers are empty. Plus each of the 10 unreachable errnos at each of the first 3 sends.",
                 note="Trusted: the fake datagram socket (sendto answers only). Scheduling between different destinations is not prescribed by the oracle."),
     "C22": dict(cat="fault_enumeration", eng="E3 mutation enumeration", ref="3 (memo group)",
                 tech="exhaustive enumeration of all short datagrams, alphabet strings, every single-byte replacement and every truncation of valid signed/unsigned grams, and crafted gram sets with numbers at and beyond the count, against real Memoer/AuthMemoer receive servicing",
-                text="Receivers with authic False and True: all byte strings <= 2 bytes, all strings of length 3-4 over a 12-byte alphabet, all 255 replacements of every byte and every truncation of every gram of valid memos (4 zeroth codes x base64/base2 headers, 2 and 3 grams), crafted self-signed sets with count 0..3 and gram numbers up to 2^24-1: servicing must not raise; an authic receiver delivers only memos all of whose grams verify for the claimed signer and equal the original.",
+                text="Receivers with authic False and True: all byte strings <= 2 bytes, all strings of length 3-4 over a 12-byte alphabet, all 255 replacements of every byte and every truncation of every gram of valid memos (4 zeroth codes x base64/base2 headers, 2 and 3 grams), crafted self-signed sets with count 0..3 and gram numbers up to 2^24-1, a mutated copy of every gram position delivered with all intact grams in all (n+1)! orders, and every delivery sequence up to length 5/6 over the four grams of two memos that two signers send under one memo id: servicing must not raise; an authic receiver delivers only memos all of whose grams verify for the claimed signer and equal the original.",
                 note="A reference gram builder written from the wire format must reproduce rend() byte for byte (asserted every run). Fixed ed25519 seeds; counter-based memo ids."),
     "C23": dict(cat="model_checking", eng="E2 BFS over real LMDB", ref="3 (store group)",
                 tech="explicit-state BFS over push/pull/extend/update/remove/clear/reopen/resync histories of the real Durq and Dusq on a real LMDB environment with a list / ordered-set model in lock step",
@@ -102,7 +102,7 @@ META = {
                 note="Crash points are orderly close/reopen between operations; torn LMDB pages are LMDB's guarantee. Sandbox under /dev/shm, removed afterwards."),
     "C24": dict(cat="model_checking", eng="E2 BFS over real LMDB", ref="3 (store group)",
                 tech="explicit-state BFS over put/pin/add/pop/rem histories of the real Suber, IoSuber and IoSetSuber on a real LMDB environment with a dict / dict-of-lists / dict-of-ordered-sets model; every other key re-read after every operation",
-                text="Keys {a, ab, a.b, (a,b), a.0, a.<32 hex zeros>} (prefixes of each other, separator and ordinal-suffix shapes), values {x,y}: Suber over all keys to depth 4/6, IoSuber and IoSetSuber over all keys to depth 3/4 and over each of the 15 key pairs to depth 4/6; states deduplicated on the raw LMDB content; result, get, cnt, getFirst, getLast of the operated key equal the model and the same reads of every other key are unchanged.",
+                text="Keys {a, ab, a.b, (a,b), a.0, a.<32 hex zeros>} (prefixes of each other, separator and ordinal-suffix shapes), values {x,y} (and, over fewer keys, {empty string, x}): Suber over all keys to depth 4/6, IoSuber and IoSetSuber over all keys to depth 3/4 and over each of the 15 key pairs to depth 4/6; states deduplicated on the raw LMDB content; result, get, cnt, getFirst, getLast of the operated key equal the model and the same reads of every other key are unchanged.",
                 note="The ordinal-suffix key collision of the insertion-ordered stores is a recorded KNOWN-FINDING (14 keys); after a violation the model follows the store so one defect is not reported as a cascade."),
     "C25": dict(cat="model_checking", eng="E3/E2 product enumeration of forests x transition histories", ref="3 (C25)",
                 tech="exhaustive enumeration of every ordered box forest up to a size, every first box and every transition history up to 3 cycles (with bounded failing preconditions) on the real Boxer.run generator, action traces compared with a reference computed from the forest alone",
@@ -110,23 +110,23 @@ META = {
                 note="Boxes are built by hand (Box, unders, goacts as plain callables); the builder verbs and Need/Act machinery are not exercised. Reference never reads Box.pile."),
     "C26": dict(cat="exploration", eng="E3 full enumeration", ref="3 (C26)",
                 tech="exhaustive enumeration of small input domains against arithmetic written from the statement",
-                text="Every integer below 2^18/2^22 x lengths 1..6 plus power-of-64 boundaries; every Base64 string up to length 3/4; every byte string up to 2/3 bytes x admissible sextet counts.",
+                text="Every integer below 2^18/2^22 x lengths 1..6 plus power-of-64 boundaries; every Base64 string up to length 3/4; every byte string up to 2/3 bytes x admissible sextet counts, and every sextet count 3..12 with all 256 values of the last needed byte over 4 fill patterns and 0-2 surplus bytes.",
                 note="l=0 excluded (documented empty soft part)."),
     "C27": dict(cat="model_checking", eng="E2 BFS", ref="3 (C27)",
                 tech="explicit-state BFS of the full reachable state graph of the real Namer with a dict-pair model in lock step",
-                text="The reachable graph over names {a,b,c,'',None} x addrs {x,y,z,'',None} and all 5 operations is closed (34 states); inverse/injective invariant in every state; rejected operations must not mutate.",
+                text="The reachable graph over names {a,b,ab,'',None} x addrs {x,y,xy,'',None} (substrings of one another) and all 5 operations is closed (34 states); inverse/injective invariant in every state; rejected operations must not mutate.",
                 note="Domains of 3 names / 3 addresses; also from constructor-seeded states."),
     "C28": dict(cat="exploration", eng="E3 term enumeration", ref="3 (C28)",
                 tech="exhaustive enumeration of field values (terms of bounded size) x shapes x formats, round-trip equality",
-                text="8 dataclass shapes (flat, frozen, tyme-stamped, nested 1-2 levels) x JSON/CBOR/MGPK x every term of <= 3/4 nodes over 15 atoms.",
+                text="8 dataclass shapes (flat, frozen, tyme-stamped, nested 1-2 levels) x JSON/CBOR/MGPK x every term of <= 3/4 nodes over 15 atoms; for the nested shapes also every sequence of <= 3/4 objects whose nested field is absent / present / present with None inside, each sequence judged in its own pristine forked interpreter.",
                 note="Common representable domain only (no tuples/bytes/NaN/non-str keys)."),
     "C29": dict(cat="exploration", eng="E3 product enumeration in a sandbox", ref="3 (C29)",
                 tech="exhaustive product enumeration of Filer flag combinations x relative names/bases (with dotted segments) x short open/reopen/close histories on the real Filer in a sandbox directory tree, recursive snapshot diff around every step",
-                text="temp x clean x filed x extensioned x reuse x clear (2^6) x 8 names x 5 bases x 2 (quick) / 4 (thorough) history shapes; Filer's class-level directories are redirected into a sandbox under /dev/shm with sentinel files in every ancestor and sibling directory: everything created or deleted must lie inside the head directory (the instance's mkdtemp directory when temp); close(clear=True) deletes only at or below .path, leaves nothing there, and leaves no mkdtemp directory of the instance.",
+                text="temp x clean x filed x extensioned x reuse x clear (2^6) x 8 names x 5 bases x history shapes {init-close, init-reopen-close, direct remake() with relative / absolute base / absolute name, reopen with the temp flag flipped, openFiler context manager with and without a flip inside, FilerDoer enter/exit} (thorough: each followed by a second reopen/close round); a foreign sibling file is planted next to every path the Filer opens; Filer's class-level directories are redirected into a sandbox under /dev/shm with sentinel files in every ancestor and sibling directory: everything created or deleted must lie inside the head directory (the instance's mkdtemp directory when temp); every clearing step (close(clear=True), reopen(clear=True), openFiler exit, FilerDoer.exit) deletes only at or below the path the instance had, leaves nothing there, and leaves no mkdtemp directory of the instance.",
                 note="Runs as root on tmpfs, so the permission-driven fallback to the alternate head is watched but not exercised. Left-over mkdtemp directories of temp Filers are a recorded KNOWN-FINDING (2 keys). Intermediate directories of persistent Filers may stay (shared)."),
     "C30": dict(cat="model_checking", eng="E1-sched + virtual asyncio loop, differential", ref="3 (C30), 2 (virtual loop)",
                 tech="stateless exploration incl. all asyncio ready-queue orders on a hand-stepped event loop; do() vs ado() differential",
-                text="Each program is run with do() and with ado() on a virtual BaseEventLoop with 0..2 spinning competitor tasks; the explorer also picks which ready handle runs next; traces, tymes, done flags must be identical.",
+                text="Each program is run with do() and with ado() on a virtual BaseEventLoop with 0..2 spinning competitor tasks; the explorer also picks which ready handle runs next; limit and start tyme are given to the constructor or to do()/ado(); traces, tymes, done flags must be identical.",
                 note="Trusted: the virtual loop (BaseEventLoop subclass) is asyncio's own Task/Handle machinery with time() and the selector removed."),
 }
 
